@@ -220,6 +220,7 @@ func c09Classes(c netCase, r *netRun) []string {
 		cl = append(cl, "sender-saw-full-port")
 	}
 	cl = append(cl, asymClasses(c, r)...)
+	cl = append(cl, manyPortClasses(c, r)...)
 	if !r.allDrain() {
 		cl = append(cl, "has-non-draining-agent")
 	} else {
@@ -263,7 +264,7 @@ func judgeC09(s *kit.Session, f kit.Failer, c netCase, compensate bool) (r *netR
 
 func TestC09Topology(t *testing.T) {
 	s := kit.Begin(t, "C09", "topology",
-		"2-6 agents (ticking modeling.Component+middleware at 1/2/1.5/3 GHz, 800/500/333.3 MHz, 7 MHz, or EventDrivenComponent+processor), 1-3 direct connections (1/2/0.5/1.5/3 GHz, 800 MHz), 2-4 ports per connection owned by drawn agents, caps 1-4 (19% of the ports with different incoming/outgoing capacities, built with messaging.NewPort+RegisterPort instead of PortBuilder); per agent 0-3 timer bursts (times = k*connection period, k<=6, 40% off-edge variants), 0-3 receipt-driven forwards fired in the same activation, 10% non-draining agents, occasional read stalls. Oracle at Run's return (empty queue): no outgoing head whose destination CanDeliver, no unread input at a draining agent, no unsent State work with a free port, no unfired timer; all-drain cases: sent multiset == consumed multiset. Non-trivial: a send happened on a connection that had already handled its tick at that very instant (from the engine BeforeEvent trace)")
+		"2-6 agents (ticking modeling.Component+middleware at 1/2/1.5/3 GHz, 800/500/333.3 MHz, 7 MHz, or EventDrivenComponent+processor), 1-3 direct connections (1/2/0.5/1.5/3 GHz, 800 MHz), 2-4 ports per connection owned by drawn agents, caps 1-4 (about 1 case in 12 instead: one connection with 65-200 plugged ports, see C10's many-ports class; 19% of the ports with different incoming/outgoing capacities, built with messaging.NewPort+RegisterPort instead of PortBuilder); per agent 0-3 timer bursts (times = k*connection period, k<=6, 40% off-edge variants), 0-3 receipt-driven forwards fired in the same activation, 10% non-draining agents, occasional read stalls. Oracle at Run's return (empty queue): no outgoing head whose destination CanDeliver, no unread input at a draining agent, no unsent State work with a free port, no unfired timer; all-drain cases: sent multiset == consumed multiset. Non-trivial: a send happened on a connection that had already handled its tick at that very instant (from the engine BeforeEvent trace)")
 	defer s.End()
 	s.Assume("harness agents follow the examples' idioms (CanSend before Send, unsent work in State, woken only by NotifyRecv/NotifyPortFree/own timers/external TickLater kick)")
 
@@ -300,7 +301,13 @@ func TestC09Topology(t *testing.T) {
 	}
 
 	kit.SetChecks(20_000, 200_000)
-	rapid.Check(t, func(rt *rapid.T) { run(rt, genC09(rt)) })
+	rapid.Check(t, func(rt *rapid.T) {
+		if rapid.IntRange(0, 19).Draw(rt, "manyports") == 0 {
+			run(rt, genManyPorts(rt, c09ConnFreqs))
+			return
+		}
+		run(rt, genC09(rt))
+	})
 }
 
 // TestC09Known_TickNowSameInstant is the dedicated reproduction of the listed
